@@ -24,7 +24,7 @@ import (
 
 func init() {
 	mon.RegisterCfg("C04", mon.Config{
-		Rule: "generated cff.Glyph programs (families: rlineto runs, alternating h/v lines of run length 1..60 in both phases, rrcurveto runs, hh/vv curves with/without leading operand, hv/vh chains of length 1..13 with/without trailing operand, line/curve junctions, hflex/hflex1 candidates and near-misses, zero-length segments, random interleavings, empty glyphs; coordinates integer / 16.16 grid / arbitrary float, magnitudes up to 32000; 0..96 stems, hintmask/cntrmask at the start and in the interior; width assignments: all equal, dominant, all distinct, fractional, selectWidths corner cases) are compiled with (*cff.Font).Write; the independent CFF reader cffmini extracts CharStrings and Private DICT, the independent interpreter t2interp executes every charstring in strict mode and the result is compared with the source glyph (operation sequence, absolute coordinates within 2^-16, stems, masks, width within 2^-16); cff.Read of the same bytes must agree with t2interp; integer glyphs are additionally loaded with golang.org/x/image. distinct = distinct charstrings (hash)",
+		Rule: "generated cff.Glyph programs (families: rlineto runs, alternating h/v lines of run length 1..60 in both phases, rrcurveto runs, hh/vv curves with/without leading operand, hv/vh chains of length 1..13 with/without trailing operand, line/curve junctions, hflex/hflex1 candidates and near-misses, zero-length segments, random interleavings, empty glyphs; coordinates integer / 16.16 grid / arbitrary float, magnitudes up to 32000; 0..96 stems, hintmask/cntrmask at the start and in the interior; width assignments: all equal, dominant, all distinct, fractional, selectWidths corner cases) are compiled with (*cff.Font).Write; the independent CFF reader cffmini extracts CharStrings and Private DICT, the independent interpreter t2interp executes every charstring in strict mode and the result is compared with the source glyph (operation sequence, absolute coordinates within 2^-16, stems, masks, width within 2^-16); cff.Read of the same bytes must agree with t2interp; integer glyphs are additionally loaded with golang.org/x/image. distinct = distinct charstrings (hash) Further strata: recompile (the same glyph values compiled again after in-place edits) and cid-dicts (CID-keyed fonts with several private dictionaries, glyph indices and CIDs that disagree).",
 		Assumptions: []string{
 			"every delta between consecutive points lies within +-31999 (16.16 operands; the decoder documents a clamp at 32000); larger deltas only in stratum big-deltas with the oracle 'error or faithful'",
 			"masks are generated only for glyphs with at least one stem and with ceil(n/8) mask bytes",
